@@ -69,10 +69,17 @@ fn clock_selftest() -> bool {
 
 // ---- calls ---------------------------------------------------------------------------------
 
+pub const BIG_BATCH: usize = 70;
+fn big_batch(tag: u8) -> Vec<Vec<u8>> {
+    (0..BIG_BATCH).map(|i| vec![tag, i as u8]).collect()
+}
+
 #[derive(Debug, Clone, PartialEq, Eq, Serialize, Deserialize)]
 pub enum Call {
     Append(u8),
     Batch(u8),
+    /// append_batch of BIG_BATCH two-byte blocks (beyond any small per-call slice size)
+    BigBatch(u8),
     Get(u64),
     Has(u64),
     Info,
@@ -90,6 +97,7 @@ impl Call {
         match self {
             Call::Append(t) => format!("append#{t}"),
             Call::Batch(t) => format!("batch#{t}"),
+            Call::BigBatch(t) => format!("batch{BIG_BATCH}#{t}"),
             Call::Get(i) => format!("get({i})"),
             Call::Has(i) => format!("has({i})"),
             Call::Info => "info".into(),
@@ -201,6 +209,10 @@ fn run_plain(c: &mut Hypercore, call: &Call, proofs: &[Proof]) -> String {
             Out::Ok(o) => format!("ok {} {}", o.length, o.byte_length),
             o => o.map(|_| ()).brief(),
         },
+        Call::BigBatch(t) => match guard(c.append_batch(&big_batch(*t))) {
+            Out::Ok(o) => format!("ok {} {}", o.length, o.byte_length),
+            o => o.map(|_| ()).brief(),
+        },
         Call::Get(i) => format!("{:?}", guard(c.get(*i))),
         Call::Has(i) => format!("{}", c.has(*i)),
         Call::Info => {
@@ -230,6 +242,10 @@ async fn run_shared(sc: &SharedCore, call: &Call, proofs: &[Proof]) -> String {
             Err(e) => format!("Err({e})"),
         },
         Call::Batch(t) => match sc.append_batch(vec![vec![*t, 1u8], vec![*t, 2u8, 3u8], vec![*t, 4u8]]).await {
+            Ok(o) => format!("ok {} {}", o.length, o.byte_length),
+            Err(e) => format!("Err({e})"),
+        },
+        Call::BigBatch(t) => match sc.append_batch(big_batch(*t)).await {
             Ok(o) => format!("ok {} {}", o.length, o.byte_length),
             Err(e) => format!("Err({e})"),
         },
@@ -303,7 +319,7 @@ fn plain_result_norm(call: &Call, s: String) -> String {
                 s
             }
         }
-        Call::Append(_) | Call::Batch(_) | Call::Prove(_) => {
+        Call::Append(_) | Call::Batch(_) | Call::BigBatch(_) | Call::Prove(_) => {
             if s.starts_with("Err(") {
                 "Err".into()
             } else {
@@ -663,7 +679,7 @@ fn product(menu: &[Call], ntasks: usize, ncalls: usize) -> Vec<Vec<Vec<Call>>> {
             for (k, c) in task.iter_mut().enumerate() {
                 let tag = (t * 8 + k + 1) as u8;
                 match c {
-                    Call::Append(x) | Call::Batch(x) => *x = tag,
+                    Call::Append(x) | Call::Batch(x) | Call::BigBatch(x) => *x = tag,
                     _ => {}
                 }
             }
@@ -699,6 +715,10 @@ pub fn run(tier: &str) -> i32 {
     // a task clearing through the public mutex next to appends and reads
     let cmenu = vec![Call::Clear(0, 1), Call::Append(0), Call::Get(0), Call::Info];
     add("writer 2 tasks x 2 calls with clear via the public mutex", false, None, product(&cmenu, 2, 2));
+    // a batch far larger than the others next to appends and reads of blocks inside it
+    let bmenu = vec![Call::BigBatch(0), Call::Append(0), Call::Info, Call::Get(INIT_BLOCKS + 40)];
+    add("writer 2 tasks x 1 call with a 70-block batch", false, None, product(&bmenu, 2, 1));
+    add("writer 2 tasks x 2 calls with a 70-block batch", false, Some(if quick { 2 } else { 3 }), product(&bmenu, 2, 2));
     if !quick {
         add("writer 2 tasks x 3 calls, append/batch/get/info", false, None, product(&[Call::Append(0), Call::Batch(0), Call::Get(INIT_BLOCKS), Call::Info], 2, 3));
         add("writer 4 tasks x 1 call", false, Some(6), product(&[Call::Append(0), Call::Batch(0), Call::Get(INIT_BLOCKS), Call::Info, Call::Prove(0)], 4, 1));
